@@ -7,7 +7,14 @@ from .gen import pick
 from .c07 import Counting
 
 PROPERTY = "C08"
-C08_APPS = ["anext", "islice2", "takewhile", "zip_first", "zip_second", "batched2", "pairwise", "islice022", "merge2", "enumerate", "chain", "filter", "merge1", "iter", "borrow", "map", "dropwhile", "islice13", "accumulate", "zip_longest", "compress", "cycle"]
+
+
+class _NoAdd:
+    """A start value nothing can be added to (builtin sum refuses str starts up front)."""
+
+
+_NOSTART = _NoAdd()
+C08_APPS = ["anext", "islice2", "takewhile", "zip_first", "zip_second", "batched2", "pairwise", "islice022", "merge2", "sum_failing", "groupby_stale", "zip_strict3", "enumerate", "chain", "filter", "merge1", "iter", "borrow", "map", "dropwhile", "islice13", "accumulate", "zip_longest", "compress", "cycle"]
 NA = len(C08_APPS)
 
 
@@ -65,6 +72,29 @@ def h_scoped(n: int, k0: int, k1: int, k2: int, k3: int, a0: int, a1: int, a2: i
                 except StopAsyncIteration:
                     break
             return out
+        if name == "sum_failing":
+            # an aggregation that fails at its first addition leaves the rest in the handle
+            try:
+                await A.sum(it, _NOSTART)
+            except TypeError:
+                pass
+            return out
+        if name == "groupby_stale":
+            g = A.groupby(it, key=lambda v: v.key > 0)
+            keep.append(g)
+            try:
+                k1, g1 = await g.__anext__()
+                out.append(await g1.__anext__())
+                k2, g2 = await g.__anext__()
+                out.append(await g2.__anext__())
+                try:
+                    await g1.__anext__()  # a stale group yields nothing and touches nothing
+                    out.append("stale-group-yielded")
+                except StopAsyncIteration:
+                    pass
+            except StopAsyncIteration:
+                pass
+            return out
         ta = APPS[name][0](it)
         keep.append(ta)
         cap = len(items) + 2 if disp == 0 else j
@@ -72,6 +102,9 @@ def h_scoped(n: int, k0: int, k1: int, k2: int, k3: int, a0: int, a1: int, a2: i
             try:
                 out.append(await ta.__anext__())
             except StopAsyncIteration:
+                break
+            except ValueError:
+                out.append("ValueError")
                 break
         if disp == 1 and hasattr(ta, "aclose"):
             await ta.aclose()
@@ -140,6 +173,41 @@ def h_scoped(n: int, k0: int, k1: int, k2: int, k3: int, a0: int, a1: int, a2: i
             break
         if name == "anext":
             got, _ = take_sync(sit, j)
+        elif name == "sum_failing":
+            try:
+                sum(sit, _NOSTART)
+            except TypeError:
+                pass
+            got = []
+        elif name == "groupby_stale":
+            import itertools as _it
+
+            got = []
+            gs = _it.groupby(sit, key=lambda v: v.key > 0)
+            try:
+                k1, g1 = next(gs)
+                got.append(next(g1))
+                k2, g2 = next(gs)
+                got.append(next(g2))
+                try:
+                    next(g1)
+                    got.append("stale-group-yielded")
+                except StopIteration:
+                    pass
+            except StopIteration:
+                pass
+        elif name == "zip_strict3":
+            cap = len(items) + 2 if disp == 0 else j
+            got = []
+            zs = APPS[name][1](sit)
+            for _ in range(cap):
+                try:
+                    got.append(next(zs))
+                except StopIteration:
+                    break
+                except ValueError:
+                    got.append("ValueError")
+                    break
         else:
             cap = len(items) + 2 if disp == 0 else j
             got, _ = take_sync(APPS[name][1](sit), cap)
@@ -225,27 +293,31 @@ def jobs(tier):
 
     N = 3
     for a0 in range(NA):
-        # A: every tool followed by one of the 9 consumption-distinct tools over the shared iterator
-        add(N=N, LP=2, apps=9, D=1, EX=0, J=(1, 2), fix={"a0": a0, "n": N, "d1": 0}, fl="agen")
+        # A: every tool followed by one of the 12 consumption-distinct tools over the shared iterator
+        add(N=N, LP=2, apps=12, D=1, EX=0, J=(1, 2), fix={"a0": a0, "n": N, "d1": 0}, fl="agen")
         # B: every tool alone: all lengths, items taken, dispositions, exit by exception before/after
         add(N=N, LP=1, apps=NA, D=1, EX=1, fix={"a0": a0}, fl=("acls" if a0 % 2 else "agen"))
     # C: nesting depth 2..3 (application innermost, outer handles used after inner exit)
     for depth in (2, 3):
         for fl in ("agen", "acls"):
-            add(N=N, LP=1, apps=9, D=3, EX=1, fix={"depth": depth, "n": N}, fl=fl)
+            add(N=N, LP=1, apps=12, D=3, EX=1, fix={"depth": depth, "n": N}, fl=fl)
+    # sync iterables under scoped_iter (their helper iterator must be protected as well)
+    for fl in ("iter", "seq", "list"):
+        for a0 in (1, 3, 5):
+            add(N=N, LP=2, apps=4, D=2, EX=0, J=(1, 2), fix={"a0": a0, "n": N, "d1": 0}, fl=fl)
     # D: cancellation at every suspension point (sources suspend once per pull), depth 1..2
-    for a0 in range(9):
-        add(N=2, LP=1, apps=9, D=2, EX=0, XC=7, fix={"a0": a0, "n": 2}, fl=("acls" if a0 % 2 else "agen"))
+    for a0 in range(12):
+        add(N=2, LP=1, apps=12, D=2, EX=0, XC=7, fix={"a0": a0, "n": 2}, fl=("acls" if a0 % 2 else "agen"))
     if not q:
-        for a0 in range(9):
-            for a1 in range(9):
-                add(N=N, LP=3, apps=9, D=1, EX=1, J=(1, 2), fix={"a0": a0, "a1": a1, "n": N, "d1": 1, "d2": 0}, fl="acls")
+        for a0 in range(12):
+            for a1 in range(12):
+                add(N=N, LP=3, apps=12, D=1, EX=1, J=(1, 2), fix={"a0": a0, "a1": a1, "n": N, "d1": 1, "d2": 0}, fl="acls")
     return J
 
 
 LEVEL = "other"
 BOUNDS = {
-    "quick": "block programs of 2 applications (tool by symbolic selector from 20 tools; second from the 9 consumption-distinct ones), j<=2 items each, disposition exhausted/closed/abandoned, exit by fall-through or an exception raised before application e or after the last; nesting depth 1..3 (one application innermost, outer handle used after inner exit); cancellation at suspension k<=6 with suspending sources; N<=2..3 items, keys unbounded",
+    "quick": "block programs of 2 applications (tool by symbolic selector from 20 tools; second from the 12 consumption-distinct ones), j<=2 items each, disposition exhausted/closed/abandoned, exit by fall-through or an exception raised before application e or after the last; nesting depth 1..3 (one application innermost, outer handle used after inner exit); cancellation at suspension k<=6 with suspending sources; N<=2..3 items, keys unbounded",
     "thorough": "3 applications, N<=3, class-based sources",
 }
 OUTSIDE = ["more than 3 applications per block", "nesting deeper than 3", "concurrent use of the scoped handle"]
